@@ -3,7 +3,7 @@
  1. TLC model-checks spec/ReflectorSafety/Isolation.tla (a model of the server's observable state - node tree, indices, per-node subscriber
     marks maintained incrementally, per-session parameters / subscriptions / connectedness, client mirrors - under the commands of an
     unprivileged session drawn from the hostile menu the spec defines, one action per command, handled as StorageReflectSession.cpp handles
-    them): Frame, Erase, OnlySelfLeaves (action properties), MarksExact, MirrorExact, NoTrace, IdxSound, TreeShape, NoPrivilege.  Nine named
+    them): Frame, Erase, OnlySelfLeaves (action properties), MarksExact, MirrorExact, NoTrace, IdxSound, TreeShape, NoPrivilege.  Thirteen guard runs over named
     wrong designs (`Deviations`) must each violate the property they are aimed at (vacuity guards).  Subscriptions may carry a what-code QueryFilter
     (marks by path only, notification by filter, as coded); SETDATA may carry the quiet flag (the node still gets everybody's marks, the mirrors lag).
  2. spec -> code: TLC dumps the state graph of the same model with RECORD = TRUE; tools/pathcover.py turns it into histories covering EVERY
@@ -26,7 +26,8 @@ PROPS = ["Frame", "Erase", "OnlySelfLeaves"]
 REACH = [("SetDataAbsolute", [], ["Frame"]), ("RemoveFromGlobalRoot", [], ["Frame"]), ("ReorderFromGlobalRoot", [], ["Frame"]),
          ("KickUnprivileged", [], ["OnlySelfLeaves"]), ("DeepMarksStay", ["MarksExact"], []), ("DeepMarksStay", [], ["Erase"]),
          ("CutNoNotify", ["MirrorExact"], []), ("CutNoNotify", ["NoTrace"], []), ("PrivBitsAccepted", ["NoPrivilege"], []),
-         ("FilteredMarksStay", ["MarksExact"], []), ("FilteredMarksStay", [], ["Erase"]), ("QuietCreateNoMarks", ["MarksExact"], [])]
+         ("FilteredMarksStay", ["MarksExact"], []), ("FilteredMarksStay", [], ["Erase"]), ("QuietCreateNoMarks", ["MarksExact"], []),
+         ("DeafMarksStay", ["MarksExact"], [])]
 
 
 def cfg(name, steps, dev, record, menu, invs=None, props=None, actors='{"s1"}'):
@@ -235,7 +236,7 @@ def run(v, tier, seed):
             raise vlib.MachineryError("directed history: command not in the menu: %s" % cmd)
         def S(who, cmd): return {"who": who, "ci": ci(cmd)}
         def D(who, partial): return {"who": who, "a": "Depart", "partial": partial}
-        esc = ["hA", "s2", "q\\(1\\)"]; RMV = "!Rmv"
+        esc = ["hA", "s2", "q\\(1\\)"]; RMV = "!Rmv"; DSUB = {"op": "SETPARAM", "x": "!Dsub", "v": "1"}
         scripts = [
             # a name with regex token characters, an all-literal subscription that escapes them, the node created AFTER the subscription; un-subscribe / departure
             [S("s1", C("SUBSCRIBE", True, esc)), S("s2", C("SETDATA", False, ["q(1)"], pay=7)), S("s1", C("REMOVEPARAM", True, esc, x="SUBSCRIBE:")), S("s2", C("SETDATA", False, ["q(1)"], pay=7)), D("s1", False)],
@@ -247,9 +248,15 @@ def run(v, tier, seed):
             # a node with indexed AND plain children, a child taken out of the index but kept; removal and departure
             [S("s1", C("SETDATA", False, ["a", "I0"], x="index", pay=5)), S("s1", C("SETDATA", False, ["a", "b"], pay=7)), S("s1", C("SETDATA", False, ["a", "I1"], x="index", pay=6)), S("s1", C("REORDERDATA", False, ["a", "*"], x=RMV)),
              S("s1", C("REMOVEDATA", False, ["a"])), S("s1", C("SETDATA", False, ["a", "I0"], x="index", pay=5)), S("s1", C("SETDATA", False, ["a", "b"], pay=7)), D("s1", True), D("s2", False)],
+            # PR_NAME_DISABLE_SUBSCRIPTIONS: marks exist, nothing is sent; the session leaves while it holds the parameter / after it removed it again; the others keep changing nodes
+            [S("s1", C("SUBSCRIBE", False, ["*"])), S("s1", DSUB), S("s2", C("SETDATA", False, ["a"], pay=2)), S("s1", C("SUBSCRIBE", False, ["a", "*"])), S("s2", C("SETDATA", False, ["a", "b"], pay=7)), D("s1", True), D("s2", False)],
+            [S("s2", DSUB), S("s1", C("SETDATA", False, ["a"], pay=7)), S("s1", C("SETDATA", False, ["a", "b"], pay=7)), S("s1", C("REMOVEDATA", False, ["a"])), S("s2", C("REMOVEPARAM", False, [], x="!Dsub")), S("s1", C("SETDATA", False, ["a"], pay=2)), D("s2", True), D("s1", False)],
+            [S("s3", DSUB), S("s1", C("SETDATA", False, ["a", "b"], pay=7)), D("s3", False), D("s1", True)],
             # a node created quietly under others' subscriptions, updated aloud, creator departs; subscribers depart amid other clients' traffic
             [S("s1", C("SETDATA", False, ["a", "b"], x="quiet", pay=7)), S("s1", C("SETDATA", False, ["a", "b"], pay=7)), S("s1", C("SUBSCRIBE", False, ["*"])), S("s1", C("SUBSCRIBE", False, ["*", "*"])), D("s2", True), D("s1", True), D("s3", False)]]
         f_script = ex.submit(random_histories, mf, 0, 0, "script", False, [{"steps": s} for s in scripts])
+        # server instances with configured privilege patterns (Isolation.tla PrivCases)
+        f_priv = ex.submit(lambda: vlib.run([srv, "priv", mf, W("rep_priv.ndjson")], timeout=280))
 
         # ---- collect
         for f in f_mc:
@@ -262,6 +269,8 @@ def run(v, tier, seed):
         rc, out, err = f_leak.result()
         leak = {"tag": "ctrleak", "rc": rc, "rows": vlib.read_ndjson(W("rep_leak.ndjson")) if os.path.exists(W("rep_leak.ndjson")) else [], "stderr": err[-3000:], "cur": None, "n": 1}
         judge(leak, "a recycled node continues a departed session's child numbering (directed case of the repaired F40)")
+        rc, out, err = f_priv.result()
+        prv = judge({"tag": "priv", "rc": rc, "rows": vlib.read_ndjson(W("rep_priv.ndjson")) if os.path.exists(W("rep_priv.ndjson")) else [], "stderr": err[-3000:], "cur": None, "n": 1}, "privileged commands from an unprivileged address") or {}
         agg = {"behaviours": 0, "followed": 0, "drifted": 0, "steps": 0, "server_runs": 0, "cut_runs": 0, "probes": 0}
         for f in f_rep + f_cut:
             s = judge(f.result(), "replay of a TLC behaviour")
@@ -302,7 +311,7 @@ def run(v, tier, seed):
            "behaviours_replayed": agg["behaviours"], "behaviours_followed_to_the_end": agg["followed"], "behaviours_drifted": agg["drifted"], "replay_steps": agg["steps"],
            "server_instances": agg["server_runs"], "departure_cut_runs": agg["cut_runs"], "behaviours_with_every_cut": len(cuts), "probing_rounds": agg["probes"],
            "graph_edges": sum(g["edges"] for g in gens), "graph_states": sum(g["states"] for g in gens), "menu_commands": nmenu,
-           "random_histories": ragg["histories"] - len(scripts), "directed_multi_session_histories": len(scripts), "random_steps": ragg["steps"], "histories_validated_by_tlc": accepted, "trace_lines_explained_by_tlc": explained, "trace_states": tstates,
+           "random_histories": ragg["histories"] - len(scripts), "directed_multi_session_histories": len(scripts), "privilege_pattern_cases": prv.get("cases", 0), "unprivileged_sessions_tried": prv.get("unprivileged_sessions", 0), "access_denied_replies": prv.get("access_denied_replies", 0), "kicks_by_privileged_sessions": prv.get("kicks_by_privileged", 0), "random_steps": ragg["steps"], "histories_validated_by_tlc": accepted, "trace_lines_explained_by_tlc": explained, "trace_states": tstates,
            "vacuity_guards": guards,
            "evaluations": agg["behaviours"] + agg["cut_runs"] + ragg["histories"], "distinct_nontrivial": agg["followed"],
            "rule": "behaviours = path cover of EVERY transition of the TLC state graph(s) of Isolation (%s), de-duplicated by their command sequence; non-trivial = followed to the end with all monitors silent and the whole observed state equal to the specification's after every step; cut runs = one server instance per (history, byte prefix, write mode); random histories: %d steps, any session acts" % (", ".join("%s: %d edges" % (g["tag"], g["edges"]) for g in gens), ns),
